@@ -1180,8 +1180,10 @@ func (p *Program) lookupType(name string, sc *clauseScope) types.Type {
 	if err != nil {
 		return nil
 	}
+	x = p.localizePkgNames(x, sc, sc.pos)
 	info := &types.Info{Types: map[ast.Expr]types.TypeAndValue{}}
 	if err := types.CheckExpr(p.Fset, sc.pkg, sc.pos, x, info); err != nil {
+		p.noteOnce("frame designator type " + name + " does not resolve at " + p.Fset.Position(sc.pos).String() + ": the frame falls back to 'everything'")
 		return nil
 	}
 	if pt, ok := info.Types[x].Type.(*types.Pointer); ok {
@@ -1602,4 +1604,14 @@ func substIdentsSel(x ast.Expr, ren map[string]string) ast.Expr {
 		}
 		return nil
 	}, map[string]int{})
+}
+
+
+// noteOnce records a diagnostic about a contract (printed with the unsupported constructs of every function verified
+// afterwards, so that a silently weakened frame cannot go unnoticed).
+func (p *Program) noteOnce(msg string) {
+	if p.notes == nil {
+		p.notes = map[string]bool{}
+	}
+	p.notes[msg] = true
 }
